@@ -246,6 +246,11 @@ func (g *Gen) one(t uint32, height uint32) ([]Cand, bool) {
 			return nil, false
 		}
 	}
+	if g.Cfg.Discards && g.Cfg.Boxes && g.Cfg.Mode == "" && g.R.Chance(1, 12) {
+		if c, ok := g.storePattern(t); ok {
+			return c, true
+		}
+	}
 	pick := g.R.Intn(100)
 	switch g.Cfg.Mode {
 	case "votes":
@@ -315,12 +320,15 @@ func (g *Gen) one(t uint32, height uint32) ([]Cand, bool) {
 		if !ok {
 			return nil, false
 		}
+		if g.R.Chance(1, 3) {
+			c = Contract{Addr: g.ByKind("store"), Kind: "store"} // storage churn: set, overwrite and clear a few slots
+		}
 		gas := uint64(g.R.Range(21000, 400000))
 		val := big.NewInt(0)
 		if g.R.Chance(1, 3) {
 			val = fx.LEMO(int64(g.R.Range(1, 50)))
 		}
-		data := append(fx.Word(uint64(g.R.Intn(8))), fx.Word(uint64(g.R.Intn(3)))...)
+		data := append(fx.Word(uint64(g.R.Intn(4))), fx.Word(uint64(g.R.Intn(3)))...)
 		if g.R.Chance(1, 4) {
 			data = g.R.Bytes(g.R.Intn(70))
 		}
@@ -381,22 +389,29 @@ func (g *Gen) one(t uint32, height uint32) ([]Cand, bool) {
 	case pick < 85 && g.Cfg.Multisig:
 		return g.multisigTx(t, u)
 	case pick < 93 && g.Cfg.Boxes:
-		// box of 2-3 simple txs from different senders
+		// box of 2-4 simple txs from different senders; a failing sub-tx comes last, so everything before it has run
 		var subs types.Transactions
 		bexp := exp
-		failing := g.Cfg.Discards && g.R.Chance(1, 4)
-		for i := 0; i < g.R.Range(2, 3); i++ {
+		failing := g.Cfg.Discards && g.R.Chance(1, 3)
+		n := g.R.Range(2, 3)
+		for i := 0; i < n; i++ {
 			s := g.key(g.user())
 			amt := fx.LEMO(int64(g.R.Range(0, 20)))
-			if failing && i == 1 {
-				amt = fx.LEMO(900000000)
-			}
 			var st *types.Transaction
-			if c, ok := g.contract(); ok && g.R.Chance(1, 3) {
-				st = g.B.Call(s, c.Addr, big.NewInt(0), uint64(g.R.Range(30000, 200000)), fx.Word(1), bexp+uint64(i))
+			if c, ok := g.contract(); ok && g.R.Chance(1, 2) {
+				if g.R.Chance(1, 2) {
+					c = Contract{Addr: g.ByKind("store"), Kind: "store"}
+				}
+				data := append(fx.Word(uint64(g.R.Intn(4))), fx.Word(uint64(g.R.Intn(3)))...)
+				st = g.B.Call(s, c.Addr, big.NewInt(0), uint64(g.R.Range(30000, 200000)), data, bexp+uint64(i))
 			} else {
 				st = g.B.Transfer(s, g.key(g.user()).Addr, amt, bexp+uint64(i))
 			}
+			g.U.Tx(st)
+			subs = append(subs, st)
+		}
+		if failing {
+			st := g.B.Transfer(g.key(g.user()), g.key(g.user()).Addr, fx.LEMO(900000000), bexp+9)
 			g.U.Tx(st)
 			subs = append(subs, st)
 		}
@@ -521,6 +536,46 @@ func (g *Gen) assetTx(t uint32, height uint32, u int) ([]Cand, bool) {
 		amt := big.NewInt(int64(g.R.Range(0, 2000)))
 		tx := g.B.TransferAsset(owner, to, id, amt, exp)
 		return []Cand{g.cand(tx, "transfer-asset", "any")}, true
+	}
+}
+
+// storePattern emits 2-3 candidates that touch the SAME storage slot of the zoo's store contract: included writes
+// (set / overwrite / clear) and a box that writes the slot and is then discarded because its last sub-tx fails, in
+// every order. Slots are few, so over the blocks of a scenario every parent state (slot empty / non-empty) occurs.
+func (g *Gen) storePattern(t uint32) ([]Cand, bool) {
+	store := g.ByKind("store")
+	if store == (common.Address{}) {
+		return nil, false
+	}
+	exp := g.exp(t)
+	k := uint64(g.R.Intn(4))
+	val := func() uint64 {
+		if g.R.Chance(1, 2) {
+			return 0
+		}
+		return uint64(g.R.Range(1, 9))
+	}
+	inc := func(i int) Cand {
+		u := g.key(g.user())
+		return g.cand(g.B.Call(u, store, big.NewInt(0), 200000, append(fx.Word(k), fx.Word(val())...), exp+uint64(i)), "call-store", "ok")
+	}
+	disc := func(i int) Cand {
+		u1, u2 := g.key(g.user()), g.key(g.user())
+		sub1 := g.B.Call(u1, store, big.NewInt(0), 200000, append(fx.Word(k), fx.Word(val())...), exp+uint64(i))
+		sub2 := g.B.Transfer(u2, u1.Addr, fx.LEMO(900000000), exp+uint64(i))
+		g.U.Tx(sub1)
+		g.U.Tx(sub2)
+		return g.cand(g.B.Box(g.key(g.user()), types.Transactions{sub1, sub2}, exp+uint64(i)), "box-failing-sub", "discard")
+	}
+	switch g.R.Intn(4) {
+	case 0:
+		return []Cand{inc(0), disc(1)}, true
+	case 1:
+		return []Cand{disc(0), inc(1)}, true
+	case 2:
+		return []Cand{inc(0), disc(1), inc(2)}, true
+	default:
+		return []Cand{disc(0), inc(1), disc(2)}, true
 	}
 }
 
